@@ -55,7 +55,7 @@ META['C11'] = {
     'assumptions': ['the engine checks every load/store against object bounds: "fits the memory reserved" is decided on the real regcomp/rnode_emit code'],
 }
 JOBS['C11'] = [
-    {'name': 'short_patterns', 'harness': 'c11_pat.c', 'units': ['rstr', 'rset', 'regex', 'sbuf', 'uc'],
+    {'name': 'short_patterns', 'harness': 'c11_pat.c', 'units': ['rstr', 'rset', 'regex', 'sbuf', 'uc'], 'heavy': True,
      'defs': {'quick': {'PN': 3}, 'thorough': {'PN': 4}}, 'split_depth': 9, 'nslices': {'quick': 32, 'thorough': 64},
      'expect_reach': ['end', 'compiled', 'rejected', 'matched'], 'timeout': {'quick': 280, 'thorough': 600}, 'max_steps': 3000000, 'native_timeout': 5},
     {'name': 'free_byte', 'harness': 'c11_pat.c', 'units': ['rstr', 'rset', 'regex', 'sbuf', 'uc'], 'tiers': ['thorough'],
@@ -186,7 +186,7 @@ META['C14'] = {
     'assumptions': ['reference semantics of the scan: the original line, left to right, non-overlapping, one character forward after an empty match; judged in whole-line context (harness/ref_re.h)'],
 }
 JOBS['C14'] = [
-    {'name': 'substitute', 'harness': 'c14_sub.c', 'units': 'ALL',
+    {'name': 'substitute', 'harness': 'c14_sub.c', 'units': 'ALL', 'heavy': True,
      'defs': {'quick': {'LL': 2, 'NP': 2}, 'thorough': {'LL': 3, 'NP': 2, 'SYMIC': 1, 'MAXREF': 3}}, 'variants': [{'TSET': 0}, {'TSET': 1}, {'TSET': 2}],
      'expect_reach': ['end', 'match'], 'timeout': {'quick': 280, 'thorough': 600}},
 ]
@@ -204,7 +204,7 @@ JOBS['C13'] = [
      'expect_reach': ['end', 'found', 'notfound'], 'timeout': {'quick': 280, 'thorough': 600}},
     {'name': 'vi_search_sequences', 'harness': 'c13_vi.c', 'units': 'ALL', 'defs': {'quick': {'K': 2}, 'thorough': {'K': 3}}, 'expect_reach': ['end'],
      'timeout': {'quick': 280, 'thorough': 600}, 'max_steps': 60000000, 'validate': {'quick': 6, 'thorough': 12}},
-    {'name': 'lbuf_search_3', 'harness': 'c13_search.c', 'units': ['lbuf', 'mot', 'sbuf', 'uc', 'rstr', 'rset', 'regex'], 'tiers': ['quick'],
+    {'name': 'lbuf_search_3', 'harness': 'c13_search.c', 'units': ['lbuf', 'mot', 'sbuf', 'uc', 'rstr', 'rset', 'regex'], 'tiers': ['quick'], 'heavy': True,
      'defs': {'LL': 3, 'NLN': 2, 'TMASK': '0x13'},
      'expect_reach': ['end', 'found', 'notfound'], 'timeout': 280},
 ]
@@ -334,7 +334,7 @@ META['C09'] = {
 }
 JOBS['C09'] = [
     {'name': 'push_queue', 'harness': 'c09_push.c', 'units': ['term', 'sbuf'], 'defs': {}, 'expect_reach': ['end', 'overflow-checked']},
-    {'name': 'repeat_vs_retype', 'harness': 'c09_rel.c', 'units': 'ALL', 'defs': {'quick': {'MODE': 0}, 'thorough': {'MODE': 0, 'NCNT': 3, 'TXTN': 2, 'JUNKALL': 1}}, 'expect_reach': ['end'],
+    {'name': 'repeat_vs_retype', 'harness': 'c09_rel.c', 'units': 'ALL', 'defs': {'quick': {'MODE': 0}, 'thorough': {'MODE': 0, 'NCNT': 3, 'TXTN': 2, 'JUNKALL': 1}}, 'expect_reach': ['end'], 'heavy': True,
      'timeout': {'quick': 280, 'thorough': 600}, 'max_steps': 80000000, 'validate': {'quick': 6, 'thorough': 12}},
     {'name': 'repeat_long_insert', 'harness': 'c09_rel.c', 'units': 'ALL', 'defs': {'MODE': 2}, 'expect_reach': ['end'],
      'timeout': {'quick': 280, 'thorough': 600}, 'max_steps': 400000000, 'validate': {'quick': 2, 'thorough': 4}, 'native_timeout': 60},
